@@ -167,6 +167,8 @@ func applyFlip(h hdr, l l4, payload, base []byte, region, idx int, bit uint) (ck
 }
 
 func bytesInts(b []byte) string {
+	// a list of short lists: coqc parses long flat list literals slowly
+	var chunks []string
 	var ws []string
 	for i := 0; i < len(b); i += 7 {
 		var w uint64
@@ -174,8 +176,15 @@ func bytesInts(b []byte) string {
 			w |= uint64(b[i+k]) << (8 * k)
 		}
 		ws = append(ws, fmt.Sprintf("%d%%uint63", w))
+		if len(ws) == 32 {
+			chunks = append(chunks, vgen.List(ws))
+			ws = nil
+		}
 	}
-	return vgen.List(ws)
+	if len(ws) > 0 {
+		chunks = append(chunks, vgen.List(ws))
+	}
+	return vgen.List(chunks)
 }
 
 func hdrTerm(h hdr) string {
